@@ -9,3 +9,5 @@ require github.com/bokysan/socketace/v2 v2.0.0
 replace github.com/bokysan/socketace/v2 => ../repo
 
 replace github.com/xtaci/kcp-go/v5 => ../kcp-go
+
+replace github.com/xtaci/smux => ../smux
